@@ -134,23 +134,28 @@ func (o *storeHandler) getResource(r res.GetRequest) {
 func (o *storeHandler) changeHandler(id string, before, after interface{}) {
 	var err error
 	rid := id
-	if o.trans != nil {
-		if before != nil {
+	// A missing value is served as the default value, if one is set.
+	if before != nil {
+		if o.trans != nil {
 			before, err = o.trans.Transform(id, before)
 			if err != nil {
 				before = nil
 			}
-		} else if o.def != nil {
-			before = o.def
 		}
-		if after != nil {
+	} else if o.def != nil {
+		before = o.def
+	}
+	if after != nil {
+		if o.trans != nil {
 			after, err = o.trans.Transform(id, after)
 			if err != nil {
 				after = nil
 			}
-		} else if o.def != nil {
-			after = o.def
 		}
+	} else if o.def != nil {
+		after = o.def
+	}
+	if o.trans != nil {
 		if after != nil {
 			rid = o.trans.IDToRID(id, after, o.p)
 		} else if before != nil {
